@@ -62,7 +62,8 @@ class World:
 
     def __init__(self, chooser=None, horizon: float = 60.0, deviations: bool = True,
                  slowcpu: bool = False, lazy_exec: bool = False, max_batches: int = 50000,
-                 early: bool = True, reorder: bool = True, hold: bool = True, op_anywhere: bool = False):
+                 early: bool = True, reorder: bool = True, hold: bool = True, op_anywhere: bool = False,
+                 hold_kinds=None):
         self.loop = VLoop()
         self.chooser = chooser or DefaultChooser()
         self.horizon = horizon
@@ -72,6 +73,7 @@ class World:
         self.opt_reorder = reorder
         self.opt_hold = hold
         self.op_anywhere = op_anywhere
+        self.hold_kinds = hold_kinds      # None = every kind may be held; else only these kinds
         self.lazy_exec = lazy_exec
         self.max_batches = max_batches
         self.pending: list[EnvEvent] = []
@@ -81,6 +83,7 @@ class World:
         self.boundary_hooks: list[Callable[[], None]] = []
         self.boundaries = 0
         self._offer_held = False
+        self._quiet_tick = False
         self._until = None
         self.finished = False
         self.state_keys: set = set()
@@ -241,7 +244,8 @@ class World:
                     if self.opt_reorder:
                         for ev in rel[1:]:
                             options.append((f'reorder:{ev.key}', 1, ('rel', ev)))
-                    if self.opt_hold and first.holdable and loop.next_timer() is not None:
+                    if self.opt_hold and first.holdable and loop.next_timer() is not None and \
+                            (self.hold_kinds is None or first.kind in self.hold_kinds):
                         options.append((f'hold:{first.key}', 1, ('hold', first)))
                     if first.losable:
                         options.append((f'lose:{first.key}', 1, ('lose', first)))
@@ -250,7 +254,8 @@ class World:
             for ev in self._heads(True):
                 # a held network event comes back around a one-shot deadline; a held *user call* may come at
                 # any later boundary (user code runs whenever it likes)
-                if self._offer_held or (ev.kind == 'op' and self.op_anywhere and not released_here):
+                if self._offer_held or (ev.kind == 'op' and self.op_anywhere and not released_here
+                                        and not self._quiet_tick):
                     options.append((f'unhold:{ev.key}', 0, ('rel', ev)))
             c = self._choose('boundary', options)
             label, _cost, action = options[c]
@@ -296,7 +301,11 @@ class World:
                         self._release(ev, 'unhold-before')
                 self._offer_held = False
                 break
+        was_idle = not loop.has_ready()
         loop.run_batch()
+        # a batch that only ran ticks of periodic background tasks changes nothing a user call could race with
+        self._quiet_tick = (was_idle or advanced) and not released_here and loop.last_batch_fired_timer \
+            and not loop.last_batch_fired_oneshot and not loop.has_ready()
         self.boundaries += 1
         self._offer_held = loop.last_batch_fired_oneshot and bool(self._heads(True))
         if self.state_fn is not None:
